@@ -572,6 +572,9 @@ def hook_neutrality(jobs_path, tag="hn"):
             raise Broken("dumper link failed:\n" + out[-3000:])
         rc, out, _ = sh([exe, jobs_path], timeout=3000)
         shutil.rmtree(d, ignore_errors=True)
+        if rc < 0 or rc in (134, 136, 139):
+            # the library itself died on one of the jobs: that is a verdict on the library, not a tool failure
+            return None, {"signal_or_rc": rc, "after_lines": out.count("\n"), "hooks": with_hooks, "last_output": out[-300:]}
         if rc != 0:
             raise Broken("dumper failed rc=%s: %s" % (rc, out[-1000:]))
         outs.append(out)
